@@ -45,6 +45,8 @@ type Cfg struct {
 	TimerP      float64     `json:"timer_p"`
 	MaxConsec   int         `json:"max_consec"`
 	SchedSeed   uint64      `json:"sched_seed"`
+	PCT         int     `json:"pct"`
+	PCTSteps    int     `json:"pct_steps"`
 	DataSeed    uint64      `json:"data_seed"`
 }
 
@@ -80,6 +82,9 @@ func (H) Gen(p string, seed uint64, tier string) *hx.Case {
 		cfg.Clients = 2 + r.Intn(3)
 	}
 	cfg.YieldP = []float64{0, 0.05, 0.2, 0.5}[r.Intn(4)]
+	if r.Chance(0.3) {
+		cfg.PCT, cfg.PCTSteps = r.Range(1, 4), []int{50, 300, 2000, 10000}[r.Intn(4)]
+	}
 	if r.Chance(0.3) {
 		cfg.TimerP = 0.1
 	}
@@ -150,6 +155,14 @@ func (H) Gen(p string, seed uint64, tier string) *hx.Case {
 				o.Op, o.B = "trust", r.Intn(nb)
 			case 5:
 				o.Op, o.B = "invalid", r.Intn(nb)
+				if added > 0 && r.Chance(0.5) {
+					// the newest blocks are the ones a failed reorganisation invalidates
+					k := 3
+					if added < k {
+						k = added
+					}
+					o.B = added - 1 - r.Intn(k)
+				}
 			case 6:
 				o.Op = "idle"
 			case 7:
@@ -165,6 +178,21 @@ func (H) Gen(p string, seed uint64, tier string) *hx.Case {
 			// the same block arrives again (peers resend what a failed reorganisation has dropped)
 			ops = append(ops, hx.J(Op{ID: 1000 + i, Op: "add", B: o.B}))
 		}
+	}
+	if added > 1 && r.Chance(0.15) {
+		// everything in the newest data file(s) turns out invalid, then the store is reopened and appended to
+		id := 5000
+		add := func(o Op) { id++; o.ID = id; ops = append(ops, hx.J(o)) }
+		add(Op{Op: "idle"})
+		k := r.Range(1, 4)
+		for j := 0; j < k && j < added-1; j++ {
+			add(Op{Op: "invalid", B: added - 1 - j})
+		}
+		add(Op{Op: "reopen"})
+		if added < nb {
+			add(Op{Op: "add", B: added})
+		}
+		add(Op{Op: "idle"})
 	}
 	return &hx.Case{Cfg: hx.J(cfg), Ops: ops}
 }
@@ -278,6 +306,9 @@ func (r *run) scan() {
 	log := simos.Snapshot()
 	for ; r.effSeen < len(log); r.effSeen++ {
 		e := &log[r.effSeen]
+		if os.Getenv("VSIM_DEBUG") != "" {
+			fmt.Printf("EFF %d %s %s %s off=%d len=%d\n", e.Seq, e.Kind, e.Path, e.Path2, e.Off, len(e.Data))
+		}
 		if strings.Contains(e.Path, "oldat") {
 			continue
 		}
@@ -610,7 +641,7 @@ func (H) Run(t *testing.T, c *hx.Case) *hx.Outcome {
 		r.bl = append(r.bl, &mblock{raw: raw, hash: h, spec: bs, addPhase: -1, invPhase: -1, trPhase: -1})
 		r.byHash[h.Hash] = i
 	}
-	scfg := simrt.Config{Seed: cfg.SchedSeed, YieldP: cfg.YieldP, TimerP: cfg.TimerP, MaxConsec: cfg.MaxConsec, StepBudget: 5_000_000}
+	scfg := simrt.Config{Seed: cfg.SchedSeed, YieldP: cfg.YieldP, TimerP: cfg.TimerP, MaxConsec: cfg.MaxConsec, PCT: cfg.PCT, PCTSteps: cfg.PCTSteps, StepBudget: 5_000_000}
 	res := simrt.Run(scfg, func() {
 		simrt.Sleep(time.Hour) // leave the zero time
 		r.open()
